@@ -42,21 +42,25 @@ class _State:
         self.sample_full = 40      # outermost calls compared unconditionally after each drain()
         self.sample_stride = 23    # afterwards every n-th outermost call is compared (harness compares listings itself)
         self.seen_outer = 0
+        self.benign_has_relation = 0
 
 
 STATE = _State()
 
 
-def _api_frame() -> str:
-    """Name of the outermost repository function on the stack (for reporting only)."""
+def _api_frame():
+    """(name of the outermost repository function on the stack, whether the value is only consumed by has_relation)."""
     f = sys._getframe(2)
     name = "?"
+    none_check_only = False
     while f is not None:
         fn = f.f_code.co_filename
         if "qce_circuit" in fn:
             name = f"{fn.rsplit('/', 1)[-1]}:{f.f_code.co_name}"
+            if f.f_code.co_name == "has_relation":
+                none_check_only = True
         f = f.f_back
-    return name
+    return name, none_check_only
 
 
 def _make_wrapper(clsname: str, orig):
@@ -101,13 +105,18 @@ def _make_wrapper(clsname: str, orig):
             st.mode = "raw"
             st.memo = None
         if shadow is not None and abs(raw - shadow) > TOL:
+            api, none_check_only = _api_frame()
+            if none_check_only:
+                # IRelationComponent.has_relation only tests the reference for None: the (stale) time cannot reach a caller
+                st.benign_has_relation += 1
+                return raw
             st.disc_count += 1
             if len(st.discrepancies) < st.max_records:
                 st.discrepancies.append({
                     "link": clsname,
                     "raw": raw,
                     "shadow": shadow,
-                    "api": _api_frame(),
+                    "api": api,
                     "step": st.step,
                     "label": st.label,
                 })
@@ -199,8 +208,9 @@ def drain() -> Dict[str, Any]:
         "discrepancy_count": st.disc_count,
         "discrepancies": st.discrepancies,
         "inconclusive": st.inconclusive,
+        "benign_has_relation": st.benign_has_relation,
     }
-    st.queries = st.outermost = st.shadow_evals = st.disc_count = st.inconclusive = st.seen_outer = 0
+    st.queries = st.outermost = st.shadow_evals = st.disc_count = st.inconclusive = st.seen_outer = st.benign_has_relation = 0
     st.discrepancies = []
     return out
 
